@@ -1172,7 +1172,9 @@ class NestedPipeFunc(PipeFunc):
     @functools.cached_property
     def func(self) -> Callable[..., tuple[Any, ...]]:  # type: ignore[override]
         func = self.pipeline.func(self.pipeline.unique_leaf_node.output_name)
-        return _NestedFuncWrapper(func.call_full_output, self.output_name)
+        # The inner pipeline knows the outputs by their original names (`_output_name`),
+        # `output_name` has the renames (e.g., a scope) of this function applied.
+        return _NestedFuncWrapper(func.call_full_output, self._output_name)
 
     @functools.cached_property
     def __name__(self) -> str:  # type: ignore[override]
